@@ -119,6 +119,7 @@ class IsaCheck:
         self.outs = outs
         self.w0 = w0
         self.findings = {}
+        self._acc = {}
         self.last_full = None
         self.last_code = None
         self.obligations = 0
@@ -150,28 +151,47 @@ class IsaCheck:
         return self._A
 
     def add(self, props, form, aspect, msg, cond=None, detail=None):
+        """record a finding; the same (form, aspect) reported by several traces is ONE finding whose condition is the
+        union over the traces, so that its fingerprint does not depend on how the code happens to be partitioned"""
         key = "%s|%s" % (form, aspect)
+        Mx = bv.M
+        full = self.last_full if self.last_full not in (None, 0) else cond
+        code = None
+        if self.last_code is not None:
+            vec, care_ = self.last_code
+            code = [Mx.AND(x, care_) for x in vec]
+        self.last_full = None
+        self.last_code = None
         if key in self.findings:
+            acc = self._acc.get(key)
+            if acc is not None:
+                if full not in (None,) and acc["cond"] is not None:
+                    acc["cond"] = Mx.OR(acc["cond"], full)
+                if code is not None and acc["code"] is not None and len(code) == len(acc["code"]):
+                    acc["code"] = [Mx.OR(a_, b_) for a_, b_ in zip(acc["code"], code)]
+                elif code is not None or acc["code"] is not None:
+                    acc["code"] = None if code is None or acc["code"] is None or len(code) != len(acc["code"]) else acc["code"]
             return
         wit = None
         detail = dict(detail or {})
         if cond is not None:
-            a = bv.M.sat_one(cond)
+            a = Mx.sat_one(cond)
             if a is not None:
-                wit = group_witness(bv.M.describe_assign(a))
-        full = self.last_full if self.last_full not in (None, 0) else cond
-        if full not in (None, 0, 1):
-            detail["extent"] = self.extent(full)
-        if self.last_code is not None:
-            # signature of what the emulator computes (per-bit weight of the code-side value on the care set):
-            # a known finding is identified by WHICH inputs fail (extent) and by WHAT is computed instead (behaviour)
-            import hashlib
-            vec, care_ = self.last_code
-            sig = ",".join(self.extent(bv.M.AND(x, care_)) if x > 1 else str(x) for x in vec)
-            detail["behaviour"] = hashlib.sha1(sig.encode()).hexdigest()[:12]
-        self.last_full = None
-        self.last_code = None
+                wit = group_witness(Mx.describe_assign(a))
+        self._acc[key] = {"cond": full, "code": code}
         self.findings[key] = Finding(props, key, form, aspect, msg, wit, detail)
+
+    def finalise(self):
+        """fingerprints of the findings: WHICH inputs fail (extent of the union condition) and WHAT is computed instead
+        (behaviour: per-bit weight of the code-side value on the failing form's domain)"""
+        import hashlib
+        for key, acc in self._acc.items():
+            f = self.findings[key]
+            if acc["cond"] not in (None, 0, 1):
+                f.detail["extent"] = self.extent(acc["cond"])
+            if acc["code"] is not None:
+                sig = ",".join(self.extent(x) if x > 1 else str(x) for x in acc["code"])
+                f.detail["behaviour"] = hashlib.sha1(sig.encode()).hexdigest()[:12]
 
     def extent(self, d):
         """fraction of the input space (over the variables the condition mentions, auxiliary
@@ -268,6 +288,7 @@ class IsaCheck:
                 self.add(["ENGINE"], "-", "outcome:" + o.kind, "unexpected trace outcome %s %r" % (o.kind, o.info), st.pc)
                 continue
             fixed = None
+            imprecise = [t_ for t_ in st.tags if t_ in ("opaque-switch", "opaque-assert", "unknown-callee", "unwrap-opaque")]
             for name, (f, cond, sem0) in self.sems.items():
                 if Mx.AND(Mx.AND(st.pc, cond), sem0.assume) == 0:
                     continue
@@ -281,6 +302,10 @@ class IsaCheck:
                     continue
                 fs = self.form_stats.setdefault(name, {"traces": 0, "ok": 0, "err": 0, "panic": 0})
                 fs["traces"] += 1
+                if imprecise:
+                    # a trace the interpreter followed imprecisely decides nothing: never a finding, always a checker error
+                    self.add(["ENGINE"], name, "imprecise", "a trace of %s was followed imprecisely (%s): not decidable" % (name, ",".join(imprecise)), care)
+                    continue
                 self.compare(o, f, sem, care, fs)
                 if len(self.samples) < 6 and o.kind == "return":
                     self.samples.append({"form": name, "trace_outcome": o.kind, "decode_bits_fixed": len(fixed),
@@ -296,6 +321,10 @@ class IsaCheck:
             for o in self.outs:
                 if o.kind != "return" or not isinstance(o.value, Enum) or o.value.variant != models.OK:
                     continue
+                if any(t_ in ("opaque-switch", "opaque-assert", "unknown-callee", "unwrap-opaque") for t_ in o.state.tags):
+                    if Mx.AND(o.state.pc, cu) != 0:
+                        self.add(["ENGINE"], u.name, "imprecise", "a trace covering encodings of %s was followed imprecisely: not decidable" % u.name, Mx.AND(o.state.pc, cu))
+                    continue
                 c = Mx.AND(o.state.pc, cu)
                 if c != 0:
                     hit = Mx.OR(hit, c)
@@ -303,6 +332,7 @@ class IsaCheck:
             self.count(hit == 0)
             if hit != 0:
                 self.add(["C07"], u.name, "unimpl-executed", "an encoding of the unimplemented instruction %s has a successful execution path" % u.name, hit)
+        self.finalise()
         return self.findings
 
     def compare(self, o, f, sem, care, fs):
